@@ -267,7 +267,11 @@ def name_sources(chk, fb, RID="R04.5"):
         def inline(self, fn, args, interp, path):
             cb = interp.callee_body(fn)
             # private helpers of the constructor; compile (folding) does not touch the list
-            return cb is not None and cb["path"].startswith("expression::deep") and cb.get("name") != "compile" and cb["path"] != b["path"] and len(cb["blocks"]) <= 80
+            if cb is None or not cb["path"].startswith("expression::deep") or cb.get("name") == "compile" or cb["path"] == b["path"] or len(cb["blocks"]) > 80:
+                return False
+            # only helpers that are handed (or hand back) a list of names matter here; printers and the like stay calls
+            tys = [cb["locals"][i]["ty"] for i in range(0, cb["arg_count"] + 1)]
+            return any("String" in t and ("SmallVec<" in t or "Vec<" in t or t.startswith("&mut [")) for t in tys)
 
         def inline_closure(self, closure_path, args, interp, path):
             return False
